@@ -1765,7 +1765,7 @@ def corr_x(ctx, n_random):
                                                  if not (ne and b[6] is None and not b[5])]]
             trials += [((SET_MODE, True, False, tr, ()), None) for tr in ("second", "minute", "hour", "day")]
             trials += [((SET_MODE, False, False, None, g), None) for g in X_GROUPS[2:]]
-            trials = rng.sample(trials, 5 if not ctx.thorough else 24)
+            trials = rng.sample(trials, 4 if not ctx.thorough else 16)
         for _ in range(2 if not ctx.thorough else 5):
             xo = gen_xopts(rng)
             trials.append((xo, None))
@@ -1874,7 +1874,7 @@ def run(ctx):
         w = rebuild(v, rng, dict_order=True, set_order=True)
         oracle_shared(ctx, w, v, rng.choice(MODES3))
     corr_members(ctx, 600 if ctx.thorough else 120)
-    corr_x(ctx, 400 if ctx.thorough else 45)
+    corr_x(ctx, 300 if ctx.thorough else 30)
     oracle_shapes(ctx)
     oracle_other_leaves(ctx)
     oracle_options(ctx, rng, 120 if ctx.thorough else 25)
